@@ -389,9 +389,15 @@ func c09ResumeHuge(in []byte, dpad uint64) bool {
 	return doff+dsize > uint64(len(in))+65536
 }
 
+// largest offset Seek accepts: files of the scratch file system (probed once), bytes.Reader
+var c09FileMaxSeek uint64
+
 func c09Plan(r *RNG, plan *[]c09Planned, in *c09Input, row c09Row, entries []int) {
 	for _, e := range entries {
-		j := c09Job{Entry: e, Zeof: row.zeof, MaxH: row.maxH, MaxS: row.maxS, In: in.data}
+		j := c09Job{Entry: e, Zeof: row.zeof, MaxH: row.maxH, MaxS: row.maxS, In: in.data, MaxSeek: memMaxSeek}
+		if e == c09EReplaceRoots || e == c09EExtract {
+			j.MaxSeek = c09FileMaxSeek
+		}
 		switch e {
 		case c09EBr:
 			j.Trusted = r.Chance(60)
@@ -438,6 +444,7 @@ func c09Plan(r *RNG, plan *[]c09Planned, in *c09Input, row c09Row, entries []int
 
 func c09Produce(c *Ctx) {
 	var plan []c09Planned
+	c09FileMaxSeek = probeMaxSeek(c.Work)
 	nBase := 2 * c.Scale
 	truncStride := 1
 	corrupt := 48
@@ -628,6 +635,7 @@ func init() {
 // `harness -prop c09corpus` prints them; corpus/C09/*.case are those lines (re-run on every check).
 func c09Corpus(c *Ctx) {
 	var plan []c09Planned
+	c09FileMaxSeek = probeMaxSeek(c.Work)
 	add := func(class string, j c09Job, e c09Expect) {
 		plan = append(plan, c09Planned{job: j, expect: e, class: class})
 	}
